@@ -7,11 +7,13 @@
 //     header file; a build step starts a FRESH PROCESS (this executable, role --build) that shares
 //     the behaviour's OCCA_CACHE_DIR, builds the kernel, runs it and reports the value.
 //     output: {"beh":i,"obs":[null | {"status":"ok|SIGSEGV|TIMEOUT|...","val":N,"act":"compiled|loaded","dir":"..","hash":".."}]}
-//   build role    : <exe> --build <kernel file> <include dir> <mode>
+//   build role    : <exe> --build <kernel file> <include dir> <mode> [file|string]
+//     ("string": the kernel text is given to device::buildKernelFromString; $DEPHASH_KIND, $DEPHASH_MODE select)
 // The replayer holds no model: it writes files, spawns builds, and copies what they print.
 #include "replay_core.hpp"
 #include <occa.hpp>
 #include <occa/internal/io.hpp>
+#include <sstream>
 #include <sys/stat.h>
 #include <sys/wait.h>
 
@@ -33,7 +35,15 @@ static int buildRole(int argc, char **argv) {
     props["okl/include_paths"].asArray();
     props["okl/include_paths"] += incDir;
     props["verbose"] = true;
-    occa::kernel k = dev.buildKernel(kernelFile, "k", props);
+    occa::kernel k;
+    if (argc > 5 && std::string(argv[5]) == "string") {
+      std::ifstream f(kernelFile);
+      std::stringstream ss;
+      ss << f.rdbuf();
+      k = dev.buildKernelFromString(ss.str(), "k", props);
+    } else {
+      k = dev.buildKernel(kernelFile, "k", props);
+    }
     int out[1] = {-1};
     occa::memory o = dev.malloc<int>(1);
     o.copyFrom(out);
@@ -54,9 +64,9 @@ static int buildRole(int argc, char **argv) {
 }
 
 static std::string runBuild(const std::string &self, const std::string &kernelFile, const std::string &incDir,
-                            const std::string &cacheDir, const std::string &mode, int timeoutSec) {
+                            const std::string &cacheDir, const std::string &mode, const std::string &kind, int timeoutSec) {
   std::string cmd = "OCCA_CACHE_DIR='" + cacheDir + "' timeout -s KILL " + std::to_string(timeoutSec) + " '" + self +
-                    "' --build '" + kernelFile + "' '" + incDir + "' " + mode + " 2>&1";
+                    "' --build '" + kernelFile + "' '" + incDir + "' " + mode + " " + kind + " 2>&1";
   FILE *p = popen(cmd.c_str(), "r");
   if (!p) return "{\"status\":\"spawn-failed\"}";
   std::string all;
@@ -89,6 +99,7 @@ int main(int argc, char **argv) {
   if (!w) { fprintf(stderr, "DEPHASH_WORK not set\n"); return 2; }
   const std::string work = w;
   const std::string mode = getenv("DEPHASH_MODE") ? getenv("DEPHASH_MODE") : "Serial";
+  const std::string kind = getenv("DEPHASH_KIND") ? getenv("DEPHASH_KIND") : "file";   // file | string
   const int timeoutSec = getenv("DEPHASH_TIMEOUT") ? atoi(getenv("DEPHASH_TIMEOUT")) : 120;
   char selfBuf[4096];
   ssize_t sl = readlink("/proc/self/exe", selfBuf, sizeof selfBuf - 1);
@@ -121,7 +132,7 @@ int main(int argc, char **argv) {
       const mj::Value &s = steps[j];
       if (j) out += ",";
       if (s["a"].str() == "build") {
-        out += runBuild(self, dir + "/k.okl", dir + "/inc", dir + "/cache", mode, timeoutSec);
+        out += runBuild(self, dir + "/k.okl", dir + "/inc", dir + "/cache", mode, kind, timeoutSec);
       } else {
         writeFile(dir + "/inc/" + s["h"].str() + ".h", s["file"].str());
         out += "null";
